@@ -37,6 +37,11 @@ TIMES = [0, 0.5, 1]
 KINDS = ['err', 'key', 'lookup', 'assert', 'eq', 'eq', 'falsy', 'stream', 'unavailable']
 ALL_KINDS = ['err', 'err', 'key', 'index', 'lookup', 'assert', 'exit', 'kbd', 'eq', 'eq', 'falsy',
              'stream', 'unavailable', 'interval']
+if not __debug__:
+    # failures that are no Exception at all: wrapped like any other (in debug mode `Concurrent`
+    # refuses them with a usage assertion - outside the domain there)
+    KINDS = KINDS + ['abort']
+    ALL_KINDS = ALL_KINDS + ['abort', 'abort']
 FATES = ([('ok', t) for t in TIMES] + [('fail', t, k) for t in TIMES for k in KINDS]
          + [('forever',)])
 ENUM = len(FATES) ** 4
